@@ -229,6 +229,26 @@ pub fn history(seed: u64, idx: u64) -> Case {
                         };
                         poisoned_expected.store(true, Ordering::SeqCst);
                         results.lock().unwrap().push(format!("{}:panic:{}:poisoned={}", i, s, w.is_mutex_poisoned()));
+                        // "from then on": also while later closures run into the poisoned mutex (and hold it for a
+                        // moment while they panic). A few closures are sent in and the flag is sampled meanwhile.
+                        let mut hs = Vec::new();
+                        for _ in 0..3 {
+                            let w2 = w.clone();
+                            hs.push(tokio::spawn(async move {
+                                let _ = w2.interact(|_| ()).await;
+                            }));
+                        }
+                        let mut always = true;
+                        let mut samples = 0u32;
+                        while samples < 3000 && hs.iter().any(|h| !h.is_finished()) {
+                            always &= w.is_mutex_poisoned();
+                            samples += 1;
+                        }
+                        for h in hs {
+                            let _ = h.await;
+                        }
+                        log.note_async();
+                        results.lock().unwrap().push(format!("{}:poison_probe:{}_samples:poisoned={}", i, if samples > 0 { "some" } else { "no" }, always));
                     }
                     Op::CancelRunning | Op::CancelRunningPanic => {
                         let panics = *op == Op::CancelRunningPanic;
